@@ -150,17 +150,17 @@ func wrap(n int, f func(i int, w *envio.LimitWriter) error) []func(w *envio.Limi
 
 func runC07(r *core.Run) {
 	r.Assume("after the fault the reader returns only the error (error-forever) or io.EOF (error-once), never more data")
-	r.Bound("read-side", "per format: every well-formed small and medium corpus file (and the ~9 KiB file) x EVERY fault offset 0..len x {error once then EOF, error forever} x {error alone, together with the last bytes} x {maximal reads, 1-byte reads}"+core.Pick(r, " (quick tier, 9 KiB file: maximal reads and the plans {once+alone, forever+with data} only)", ""))
+	r.Bound("read-side", "per format: every well-formed small and medium corpus file, the ~9 KiB file and the long-line file (one line of 5000+ bytes, so faults land inside a line that spans two buffer fills) x EVERY fault offset 0..len x {error once then EOF, error forever} x {error alone, together with the last bytes} x {maximal reads, 1-byte reads}"+core.Pick(r, " (quick tier, 9 KiB file: maximal reads and the plans {once+alone, forever+with data} only)", ""))
 	core.Clause(r, "read-faults", core.Opts{Rule: "fault plans enumerated completely per input; oracle: leading records of the fault-free decode, then >= 1 error items and nothing else, iteration ends within the horizon (fault-free items + 16; a reader polled > 2000 times after the fault counts as non-terminating); non-trivial = fault strictly inside the data and at least one record before it"},
 		func(emit func(c07Read) bool) {
 			for _, f := range formats {
-				for _, size := range []string{"small", "medium", "large"} {
+				for _, size := range []string{"small", "medium", "large", "longline"} {
 					for i, d := range corpus(f.Name, size) {
 						for at := 0; at <= len(d); at++ {
 							for _, forever := range []bool{false, true} {
 								for _, wd := range []bool{false, true} {
 									for _, ob := range []bool{false, true} {
-										if size == "large" && !r.Thorough() && (ob || forever != wd) {
+										if (size == "large" || size == "longline") && !r.Thorough() && (ob || forever != wd) {
 											continue // quick: two of the eight plans per offset on the 9 KiB file
 										}
 										if !emit(c07Read{f.Name, fmt.Sprint(size, "/", i), at, forever, wd, ob}) {
